@@ -335,6 +335,7 @@ fn run_program_property(cli: &Cli, prop: Prop) -> ! {
         optable::run(&report, cli.tier);
     }
     // module structures the body search keeps fixed (C01 against the reference, C13 fresh vs. reloaded)
+    structure::run_common(&cfg, &report, cli.tier);
     if prop != Prop::C02 {
         structure::run(&cfg, &report, cli.tier);
     }
